@@ -309,7 +309,7 @@ def run(ctx: lib.Ctx) -> None:
         add_apply(doc['source'], doc['patch'], bool(doc.get('revert')), 'corpus')
 
     # ---- 1. difflib patches
-    npairs = ctx.n(200, 4000)
+    npairs = ctx.n(180, 3000)
     fixed = [('', ''), ('', 'a\n'), ('a\n', ''), ('a', ''), ('', 'a'), ('a', 'a\n'), ('a\n', 'a'), ('a\nb', 'a\nb\nc'), ('a\nb\nc', 'a\nb'),
              ('\n', ''), ('\n\n', '\n'), ('a\n\n', 'a\n'), ('@\n', '@@\n'), ('\\ No newline at end of file\n', '\\ No newline at end of file'),
              ('x\ny', 'x\nz\n'), ('x\ny', 'x\nz'), ('y', 'z'), ('y', 'z\n'), ('y\n', 'z'), ('p\nq\ny', 'p\nQ\nz'),
@@ -342,7 +342,7 @@ def run(ctx: lib.Ctx) -> None:
 
     # ---- 2. hand-built scripts
     script_fail = []
-    nscripts = ctx.n(150, 3000)
+    nscripts = ctx.n(150, 2500)
     made = 0
     tries = 0
     while made < nscripts and tries < nscripts * 6:
@@ -368,9 +368,24 @@ def run(ctx: lib.Ctx) -> None:
                                 'a': a, 'b': b, 'patch': patch, 'applied': fwd, 'reverted': back,
                                 'repro': f'from pytezos.protocol.diff import apply_patch; apply_patch({a!r}, {patch!r}), apply_patch({b!r}, {patch!r}, revert=True)'})
 
+    # ---- 2b. texts with other line separators (outside the model's domain: oracle (B) only)
+    exotic = ['a', 'b', '\r', '\n', '\x0c', '\x0b', '\x1c', '\x85', ' ', '\r\n', '\u2028', 'é']
+    for _ in range(ctx.n(300, 6000)):
+        a = ''.join(rng.choice(exotic) for _ in range(rng.randrange(0, 8)))
+        b = ''.join(rng.choice(exotic) for _ in range(rng.randrange(0, 8)))
+        cs = rng.randrange(6)
+        ok, patch = lib.call(make_patch, a, b, 'f', cs)
+        fwd = run_apply(a, patch, False) if ok else None
+        back = run_apply(b, patch, True) if ok else None
+        ctx.case(('x', a, b, cs), nontrivial=a != b, kind='exotic-separators')
+        if fwd != b or back != a:
+            report('applying / reverting the generated diff does not reproduce the other text',
+                   {'a': a, 'b': b, 'context_size': cs, 'patch': patch if ok else repr(patch), 'applied': fwd, 'reverted': back,
+                    'repro': f'from pytezos.protocol.diff import *; p=make_patch({a!r}, {b!r}, "f", {cs}); apply_patch({a!r}, p), apply_patch({b!r}, p, revert=True)'})
+
     # ---- 3. malformed stream (A only)
     base = [m for m in apply_meta if m[4] in ('difflib', 'script') and m[1]]
-    for _ in range(ctx.n(220, 4000)):
+    for _ in range(ctx.n(200, 3000)):
         src, patch, rv, _, _ = rng.choice(base)
         bad = malform(rng, patch)
         if rng.random() < 0.2:
